@@ -32,6 +32,7 @@ RULE = (
 RULE += (" One of the placeholder names has 81 characters.")
 RULE += (" Case-sensitive field-bound values (cased, contains|cased) with placeholders are included (the backend interface has no case-sensitive form for unbound values, so keywords are not).")
 RULE += (" Regular-expression flag modifiers are placed before and after expand.")
+RULE += (" A quarter of the cases uses a backend without regular-expression escaping (re_escape empty, escape character not escaped).")
 ASSUMPTIONS = [
     "vf/ref/modifiers.py defines which %name% sequences are placeholders",
     "variable values inserted into regular expressions are alphanumeric (insertion of regex "
@@ -233,7 +234,11 @@ def check_case(case: dict) -> Outcome:
     doc = {"title": "t", "logsource": {"category": "c"}, "detection": {"sel": {key: case["value"]}, "condition": "sel"}}
     try:
         rule = SigmaRule.from_dict(doc)
-        queries = make_backend(CFG, _pipeline(case)).convert_rule(rule)
+        # backend option variant: nothing to escape in regular expressions (re_escape empty, escape character not escaped)
+        extra = {"re_escape": (), "re_escape_escape_char": False} if case.get("bare_re") else None
+        if extra:
+            out.label("backend-without-regex-escaping")
+        queries = make_backend(CFG, _pipeline(case), extra_attrs=extra).convert_rule(rule)
         err = None
     except SigmaError as e:
         queries, err = None, e
@@ -317,7 +322,7 @@ def cases(draw):
             if draw(st.integers(0, 11)) == 0:
                 vals = vals + [draw(st.sampled_from([None, {"k": 1}, ["n"]]))]
             vars_[n] = vals if draw(st.integers(0, 4)) or len(vals) != 1 else vals[0]
-    return {"key": key, "value": value, "pipeline": items, "vars": vars_}
+    return {"key": key, "value": value, "pipeline": items, "vars": vars_, "bare_re": draw(st.integers(0, 3)) == 0}
 
 
 def run(ctx) -> None:
